@@ -109,21 +109,26 @@ static void cmd_S(char** t, int nt) {
     if (!ZSTD_isError(r)) r = give_dict(c, t[3], d, dn);
     (void)nt;
     if (ZSTD_isError(r)) { perr(id, r); goto done; }
+    if (!strcmp(p, "-")) p = "";
     if (nt > 7) { r = ZSTD_CCtx_setPledgedSrcSize(c, strtoull(t[7], NULL, 10)); if (ZSTD_isError(r)) { perr(id, r); goto done; } }
-    while (*p && ncalls < 4000) {
-        unsigned long inl, oc; int dir, k = 0;
-        if (sscanf(p, "%lu:%lu:%d%n", &inl, &oc, &dir, &k) < 3) break;
-        p += k; if (*p == ';') p++;
-        if (inl > n - ipos) inl = n - ipos;
-        if (oc > cap - opos) oc = cap - opos;
-        {   ZSTD_inBuffer ib; ZSTD_outBuffer ob;
-            ib.src = in + ipos; ib.size = inl; ib.pos = 0; ob.dst = out + opos; ob.size = oc; ob.pos = 0;
-            r = ZSTD_compressStream2(c, &ob, &ib, (ZSTD_EndDirective)dir);
-            ncalls++;
-            if (ZSTD_isError(r)) { const char* e = ename(r); cl += sprintf(calls + cl, "%lu:%lu:E", (unsigned long)ib.pos, (unsigned long)ob.pos);
-                for (; *e; e++) calls[cl++] = (*e == ' ') ? '_' : *e; calls[cl++] = ';'; calls[cl] = 0; break; }
-            ipos += ib.pos; opos += ob.pos;
-            cl += sprintf(calls + cl, "%lu:%lu:%lu;", (unsigned long)ib.pos, (unsigned long)ob.pos, (unsigned long)r);
+    {   int finished = 0, tail = 0;
+        while (!finished && ncalls < 6000) {
+            unsigned long inl, oc; int dir, k = 0;
+            if (*p && sscanf(p, "%lu:%lu:%d%n", &inl, &oc, &dir, &k) >= 3) { p += k; if (*p == ';') p++; }
+            else { inl = (unsigned long)(n - ipos); oc = (unsigned long)(cap - opos); dir = 2; tail = 1; }   /* history exhausted: finish the frame */
+            if (inl > n - ipos) inl = n - ipos;
+            if (oc > cap - opos) oc = cap - opos;
+            {   ZSTD_inBuffer ib; ZSTD_outBuffer ob;
+                ib.src = in + ipos; ib.size = inl; ib.pos = 0; ob.dst = out + opos; ob.size = oc; ob.pos = 0;
+                r = ZSTD_compressStream2(c, &ob, &ib, (ZSTD_EndDirective)dir);
+                ncalls++;
+                if (ZSTD_isError(r)) { const char* e = ename(r); cl += sprintf(calls + cl, "%lu:%lu:E", (unsigned long)ib.pos, (unsigned long)ob.pos);
+                    for (; *e; e++) calls[cl++] = (*e == ' ') ? '_' : *e; calls[cl++] = ';'; calls[cl] = 0; break; }
+                ipos += ib.pos; opos += ob.pos;
+                if (cl < 64 * 4096 - 100) cl += sprintf(calls + cl, "%lu:%lu:%lu%s;", (unsigned long)ib.pos, (unsigned long)ob.pos, (unsigned long)r, tail ? "t" : "");
+                if (dir == 2 && r == 0 && ib.pos == inl) finished = 1;   /* frame complete */
+                if (tail && ib.pos == 0 && ob.pos == 0 && r != 0) break;   /* no progress in the tail: give up */
+            }
         }
     }
     printf("%s OK ", id); puthex(out, opos); printf(" %s\n", cl ? calls : "-");
